@@ -316,6 +316,83 @@ def run_reduce_vector(vec, tid: str, prop: str, variant: int = 0) -> dict:
     return rec.to_json()
 
 
+def linalg_vectors(dump_path: str):
+    out, _ = vectors(dump_path)
+    out = [v for v in out if v["kind"] not in ("fn", "none")]
+    kinds = {}
+    for v in out:
+        kinds[v["kind"]] = kinds.get(v["kind"], 0) + 1
+    return out, {"vectors": len(out), "vector_kinds": kinds}
+
+
+def run_linalg_vector(vec, tid: str, prop: str, variant: int = 0) -> dict:
+    """MC_LinAlg vectors on det / matmul / inner / outer / diff / ediff1d."""
+    import random
+    from .actions import reduce_fields
+    from .drivers.shape import distinct_poly_spec
+    reset_options()
+    rec = Recorder(tid, prop)
+    rng = random.Random(variant)
+    kind = ("int", "int", "float")[variant % 3]
+    names = ((0, 1), (0,), (1, 2))[(variant // 3) % 3]
+
+    def operand(shape, tag=1, nm=None):
+        return build_poly(distinct_poly_spec(rng, tuple(shape), names=nm or names, kind=kind, tag=tag))
+
+    def do(fn, args, p, sp):
+        return rec.do("reduce", args, keep=False, fn=fn, p=p, spelling=sp, **reduce_fields(fn, p))
+
+    k = vec["kind"]
+    if k == "det":
+        n = vec["n"]
+        shape = (2, n, n) if vec["stack"] else (n, n)
+        spec = distinct_poly_spec(rng, shape, names=names, kind=kind)
+        for z in vec["zeros"]:
+            for row in spec["coefs"]:
+                row[z - 1] = row[z - 1] * 0
+                if vec["stack"] and variant % 2 == 0:
+                    row[n * n + z - 1] = row[n * n + z - 1] * 0       # same pattern in both members
+        a = rec.new(build_poly(spec))
+        do("det", [a], {}, ("numpoly", "numpy")[variant % 2])
+    elif k == "matmul":
+        a = rec.new(operand(vec["a"]))
+        if variant % 4 == 3:
+            import numpy
+            size = 1
+            for d in vec["b"]:
+                size *= d
+            b = rec.new(numpy.arange(1, size + 1, dtype="int64" if kind == "int" else "float64").reshape(vec["b"]))
+        else:
+            b = rec.new(operand(vec["b"], tag=3, nm=((0, 1), (1,), (0, 2))[variant % 3]))
+        do("matmul", [a, b], {}, ("numpoly", "numpy", "operator")[variant % 3])
+    elif k in ("inner", "outer"):
+        a = rec.new(operand((vec["n"],)))
+        b = rec.new(operand((vec["n"] if k == "inner" else vec["m"],), tag=3, nm=((0, 1), (2,))[variant % 2]))
+        do(k, [a, b], {}, ("numpoly", "numpy")[variant % 2])
+    else:
+        shape = list(vec["shape"])
+        a = rec.new(operand(shape))
+        args, p = [a], {}
+        if k == "diff":
+            p = {"axis": vec["axis"], "n": vec["n"]}
+        for key, choice in (("has_pre", vec["pre"]), ("has_app", vec["app"])):
+            if choice == "none":
+                continue
+            if choice == "scalar":
+                extra = operand((), tag=5) if variant % 2 else (2 if kind == "int" else 0.5)
+            elif k == "diff":
+                s2 = list(shape)
+                s2[vec["axis"]] = 1 + variant % 2
+                extra = operand(s2, tag=5)
+            else:
+                extra = operand((1 + variant % 2,), tag=5)
+            args.append(rec.new(extra))
+            p[key] = True
+        do(k, args, p, ("numpoly", "numpy")[variant % 2])
+    rec.meta["source"] = "MC_LinAlg"
+    return rec.to_json()
+
+
 def order_vectors(dump_path: str):
     out, stats = vectors(dump_path)
     out = [v for v in out if v["kind"] == "order"]
